@@ -31,7 +31,7 @@ def to_monitor(tid: str, cfg: dict, trace: list, *, real: bool = False, caller_p
                        'main': int(r.get('main', 0)),
                        'seesmark': int(mark is not None and r.get('mark') == mark),
                        'freshimport': int(r.get('impid') == pid),
-                       'ctx': r.get('ctx') or []})
+                       'ctx': r.get('ctx') or ''})
         elif k == 'obs_logs':
             toks = []
             for m in r['delivered']:
@@ -46,7 +46,7 @@ def to_monitor(tid: str, cfg: dict, trace: list, *, real: bool = False, caller_p
             ev.append({kk: vv for kk, vv in r.items() if kk not in ('pid', 's', 'at', 'msg')})
     c = dict(cfg)
     c['real'] = bool(real)
-    c['ctxkeys'] = ctxkeys if ctxkeys is not None else [[] for _ in range(cfg['n'])]
+    c['ctxkeys'] = ctxkeys if ctxkeys is not None else ['' for _ in range(cfg['n'])]
     return {'tid': tid, 'cfg': c, 'ev': ev}
 
 
